@@ -56,7 +56,8 @@ def short(case):
     """compact description for evidence samples"""
     return {"model": case["model"], "degree": case.get("degree"), "n": len(case["x"]),
             "sx": case["sx"], "sy": case["sy"], "xrange": case["xrange"], "form": case["form"],
-            "noise_free": case["noise_free"], "x[:3]": case["x"][:3], "y[:3]": case["y"][:3]}
+            "noise_free": case["noise_free"], "units(x,y)": case.get("scale", [1.0, 1.0]),
+            "x[:3]": case["x"][:3], "y[:3]": case["y"][:3]}
 
 
 def tag(case):
@@ -152,7 +153,11 @@ def judge_c06(case, o, r):
         S = fb(r["S"])[0]
         fac = unbits(r["fac"])
         # residual-scaled covariance; meaningless when the data are fitted exactly
-        if not fails and S > 1e-18 * max(1.0, sum(abs(v) for v in mag)):
+        # (relative to sum((y_i/s_i)^2) over the selected points: no absolute floor, the data may be
+        # in any units)
+        sy_ = G.as_list(case["yerr"], len(case["y"]))
+        yn2 = sum((case["y"][i] / ((sy_[i] or 1.0) if r.get("hasYerr") else 1.0)) ** 2 for i in r["sel"])
+        if not fails and S > 1e-18 * yn2:
             tol = POLY_COV_EPS * kappa + 1e-10
             for i in range(m):
                 for j in range(m):
@@ -194,7 +199,9 @@ def judge_c06(case, o, r):
         if case["noise_free"]:
             for k in range(m):
                 pt = case["ptrue"][k]
-                if not abs(o["popt"][k] - pt) <= NOISE_FREE_REL * max(abs(pt), 1e-2):
+                # (floor 1e-2 in the parameter's own units: a Gaussian's mean may be 0)
+                if not abs(o["popt"][k] - pt) <= NOISE_FREE_REL * max(
+                        abs(pt), 1e-2 * case.get("pscale", [1.0] * m)[k]):
                     fails.append(fail(
                         "c06:noise-free:" + sfx,
                         "generating parameter {} of noise-free data not reproduced".format(k),
@@ -244,6 +251,9 @@ def run_c06(ctx, cases, ref=False):
             dist["sx:" + c["sx"]] += 1
             dist["noise_free" if c["noise_free"] else "noisy"] += 1
         dist["xrange" if c["xrange"] else "whole"] += 1
+        u = c.get("scale", [1.0, 1.0])
+        dist["units:x*{:g}".format(u[0])] += 1
+        dist["units:y*{:g}".format(u[1])] += 1
         if c["xrange"]:
             if c["xrange"][0] in c["x"]:
                 dist["xrange:low-bound-on-a-data-point"] += 1
@@ -324,11 +334,15 @@ def judge_c07(case, o, r):
     if "fail" in r:
         return [fail("c07:model-error", "model driver: " + r["fail"], case, kind="disagreement")], 0
     m = len(o["popt"])
+    # the unit of y (values, uncertainties and residuals are in it): floors below are relative to
+    # it, never absolute -- the data may be in any units (1e-6 ... 1e6)
+    yunit = max(abs(v) for v in case["y"]) or 1.0
 
-    def cmp(sig, what, impl, pair, clause, slack=256.0, **kw):
+    def cmp(sig, what, impl, pair, clause, slack=256.0, unit=None, **kw):
         nonlocal skipped
         v, b = fb(pair)
-        if not (math.isfinite(v) and math.isfinite(b)) or b > 1e-6 * abs(v) + 1e-9:
+        unit = yunit if unit is None else unit
+        if not (math.isfinite(v) and math.isfinite(b)) or b > 1e-6 * abs(v) + 1e-9 * unit:
             skipped += 1          # ill-conditioned by the model's own error bound
             return True
         if not close(impl, v, b, slack=slack):
@@ -350,7 +364,7 @@ def judge_c07(case, o, r):
                                 x, form), ie, me, "uncertainty band", x=x)
             if ok:
                 q, qb = fb(mq)
-                if math.isfinite(q) and qb <= 1e-6 * abs(q) + 1e-12 and not close(
+                if math.isfinite(q) and qb <= 1e-6 * abs(q) + 1e-12 * yunit * yunit and not close(
                         ie * ie, q, qb, slack=1024.0, rel=1e-9):
                     fails.append(fail("c07:band:" + t, "fit_function({!r}).error^2 differs from "
                                       "g^T Cov g".format(x), case, impl=ie * ie, expected=q,
@@ -378,16 +392,36 @@ def judge_c07(case, o, r):
                 break
     # chi-squared
     cmp("c07:chi2:" + t + ":sy-" + case["sy"], "chi-squared is not the sum of (residual/sigma_y)^2 "
-        "over the points with sigma_y > 0", o["chi2"], r["chi2"], "chi-squared")
+        "over the points with sigma_y > 0", o["chi2"], r["chi2"], "chi-squared", unit=1.0)
     # registered correlations and the printed matrix: one covariance
     printed = G.parse_corr_matrix(o["str"])
     if printed is None or len(printed) != m * m:
         fails.append(fail("c07:printed-matrix-shape:" + t, "cannot read an {0}x{0} correlation matrix "
                           "from str(result)".format(m), case, impl=o["str"]))
         printed = None
+    hi = G.parse_corr_matrix(o["str_hi"]) if o.get("str_hi") else None
+    if hi is not None and (printed is None or len(hi) != m * m or any(
+            not abs(a - b) <= 5.1e-4 * max(1.0, abs(b)) for a, b in zip(printed, hi))):
+        hi = None           # not the same matrix at higher precision: use the 3-decimal text only
     for i in range(m):
         for j in range(m):
             cv, cb = fb(r["corr"][i][j])
+            if hi is not None and i != j and math.isfinite(cv) and cb <= 1e-9:
+                # full precision: equal to the registered correlation, or to it rounded to the 3
+                # decimals of the display
+                # (numpy's inverse of an ill-conditioned normal matrix is symmetric only up to
+                # kappa*eps -- 1.4e-9 seen for degree 5 -- and pair (i,j) is registered from the
+                # upper triangle: the matrix's own asymmetry is allowed for)
+                hv = hi[i * m + j]
+                asym = abs(hv - hi[j * m + i])
+                if not (abs(hv - cv) <= 1e-9 + 4 * asym + 64 * cb or abs(hv - round(cv, 3)) <= 1e-12):
+                    fails.append(fail(
+                        "c07:reported-correlation:" + t,
+                        "entry ({},{}) of the reported correlation matrix is {!r} (str(result) with "
+                        "numpy printing 17 digits); the parameter uncertainties and the registered "
+                        "covariance give {!r}".format(i, j, hv, cv), case, impl=hv, expected=cv,
+                        clause="uncertainties, printed matrix and registered correlations from one "
+                               "covariance"))
             if i == j:
                 if o["regcorr"][i][j] != 1.0:
                     fails.append(fail("c07:self-correlation", "get_correlation(p, p) != 1", case,
@@ -396,7 +430,7 @@ def judge_c07(case, o, r):
                 cmp("c07:registered-correlation:" + t,
                     "get_correlation(result[{}], result[{}]) is not cov_ij/(sigma_i sigma_j)".format(
                         i, j), o["regcorr"][i][j], r["regcorr"][i][j],
-                    "registered correlations come from the one covariance")
+                    "registered correlations come from the one covariance", unit=1.0)
             if printed is not None and math.isfinite(cv):
                 pv = printed[i * m + j]
                 if not (abs(pv - cv) <= 5.1e-4 + 64 * cb or abs(pv - cv) <= 5.1e-4 * abs(cv) + 64 * cb):
@@ -426,6 +460,15 @@ def run_c07(ctx, cases, ref=False):
         dist["sy:" + c["sy"]] += 1
         dist["sx:" + c["sx"]] += 1
         dist["form:" + c["form"]] += 1
+        u = c.get("scale", [1.0, 1.0])
+        dist["units:x*{:g}".format(u[0])] += 1
+        dist["units:y*{:g}".format(u[1])] += 1
+        if "exception" in o and c["sy"] == "yzeros":
+            # the library's first pass (sigma = sigma_y, some exactly 0) is not a least-squares
+            # problem; when it does not get through the case says nothing
+            skipped += 1
+            dist["skipped-first-pass-with-sigma_y=0"] += 1
+            continue
         if "exception" in o:
             raised.append((c, o))
             continue
@@ -450,6 +493,9 @@ def run_c07(ctx, cases, ref=False):
         failures += fs
         if nontrivial_c07(o):
             nontrivial.add(case_hash(c))
+            if max(abs(o["cov"][i][j]) for i in range(len(o["popt"]))
+                   for j in range(len(o["popt"])) if i != j) <= 1e-8:
+                dist["registered covariance below 1e-8 in magnitude"] += 1
         if len(samples) < 5 and not fs:
             samples.append({"case": short(c), "impl_params": o["popt"], "xs": c["xs"],
                             "impl_fit_function": o["fit"],
@@ -471,13 +517,14 @@ def closed_form_search(ctx, cases):
         tried += 1
         f = G.ref_fn(c["model"])
         p = o["popt"]
+        yunit = max(abs(v) for v in c["y"]) or 1.0
         t = tag(c)
         try:
             for x, (iv, _) in zip(c["xs"], o["fit"]):
                 rv = f(x, *p)
                 scale = sum(abs(v) * abs(x) ** (len(p) - 1 - k) for k, v in enumerate(p)) \
                     if c["model"] in G.PRESET_POLY else abs(rv)
-                if abs(iv - rv) > 1e-9 * (scale + 1e-9):
+                if abs(iv - rv) > 1e-9 * (scale + 1e-9 * yunit):
                     failures.append(fail(
                         "c07:fit-function-value:" + t,
                         "fit_function({!r}) = {!r}, the model at the returned parameters {} is "
@@ -491,7 +538,7 @@ def closed_form_search(ctx, cases):
                 bad = False
                 for i, (x, y) in enumerate(zip(c["x"], c["y"])):
                     rv = y - f(x, *p)
-                    if abs(o["res"][i][0] - rv) > 1e-9 * (abs(y) + abs(rv) + 1e-9):
+                    if abs(o["res"][i][0] - rv) > 1e-9 * (abs(y) + abs(rv) + 1e-9 * yunit):
                         failures.append(fail(
                             "c07:residual:" + t, "residual {} = {!r}, y_i - model(x_i) = {!r}".format(
                                 i, o["res"][i][0], rv), c, impl=o["res"][i][0], expected=rv,
